@@ -139,6 +139,8 @@ def merge_stats(acc, st):
     for k, v in st.items():
         if isinstance(v, dict):
             merge_stats(acc.setdefault(k, {}), v)
+        elif isinstance(v, (int, float)) and str(k).startswith('max_'):
+            acc[k] = max(acc.get(k, v), v)
         elif isinstance(v, (int, float)):
             acc[k] = acc.get(k, 0) + v
         else:
